@@ -201,6 +201,15 @@ def one_case(case: Dict[str, Any]) -> Dict[str, Any]:
         sdl_defs = [d for d in case["_sdl"].split("\n\n") if d.strip()]
     query_defs = frs + ops
     strategy = case["strategy"]
+    if case.get("colliding_keys") and strategy == "client":
+        # response keys that meet after the name mapping (a listed matter for C18): whatever the generator does with them, it must do the same under every hash seed
+        from graphql import get_named_type, is_leaf_type, is_required_argument
+        q_ = schema_ref.query_type
+        leafs = [n for n, f in q_.fields.items() if is_leaf_type(get_named_type(f.type)) and not any(is_required_argument(a) for a in f.args.values())]
+        if leafs:
+            keys = ["userId", "user_id", "a1", "a_1", "_x", "x", "fooBar", "foo_bar"]
+            query_defs = query_defs + ["query VfCollidingKeys { %s }" % " ".join("%s: %s" % (k, leafs[j % len(leafs)]) for j, k in enumerate(keys))]
+            feats = set(feats) | {"names.colliding_response_keys"}
     cfg: Dict[str, Any] = dict(case["cfg"])
     cfg.pop("_tracer", None)
     if strategy == "client":
@@ -341,6 +350,8 @@ def run(tier: str, seed: int) -> int:
                 kw["dirty"] = sorted(set(kw["dirty"]) | {"schema.force_scalar"})
         else:
             kw["target"] = ["schema_out.py", "schema_out.graphql", "schema_out.gql"][i % 3]
+        if i % 6 == 3:
+            kw["colliding_keys"] = True
         if i % 10 == 9 or i % 12 == 5:
             kw["remote"] = "legacy" if (i // 2) % 2 == 0 else "full"
         c = cw.make_case(seed, i, **kw)
